@@ -32,8 +32,9 @@ def run(ck):
         "accepting path the decision `reject iff value >= M`, made on the un-truncated value against this field's modulus. "
         "(LAZY) in the field whose representation is [0, 2M), equality and zero tests on raw representation values are applied to "
         "normalised values and as_int returns a normalised value. (CANON) serialisation writes as_int() when the representation is "
-        "not canonical; where IS_CANONICAL is true the raw value is the residue. Agreement of add/mul/inv with integer arithmetic "
-        "for all operands is not decided (bit-vector carry logic). (REPR) For the lazy field the RANGE half of that agreement is decided: "
+        "not canonical; where IS_CANONICAL is true the raw value is the residue. (ARITH) add/sub/neg/double of every field, f62 mul/square/new/as_int, f64 mul_small, "
+        "f128 new: the stored integer is congruent modulo p to the integer operation on every carry/borrow path for all operands in the "
+        "representation range (engine E5b); f64 mul (mont_red_cst), f128 mul, inv and exp are not decided. (REPR) For the lazy field the RANGE half of that agreement is decided: "
         "assuming every incoming element is in [0, 2M), every element the module constructs is again in [0, 2M) — the invariant that "
         "normalize(), as_int(), equality and the single conditional subtraction of add/double rely on."
     )
